@@ -170,7 +170,7 @@ def _check_object(ctx, what, asig, a, dt, trap, order, exact=False):
     return got
 
 
-@clause(CLAUSES, "increments", _cases(), quick=600, thorough=3000,
+@clause(CLAUSES, "increments", _cases(), quick=600, thorough=2400,
         rule="records of all kinds (n 2..5000, float64 / int64 / list / view / negative stride / read-only), dt log-uniform or dyadic, "
              "trap in {T,F} by keyword or positionally, either array-level entry point; non-trivial = record has >= 2 sign changes",
         oracle="reference model: long-double loop over the defining increments (local bound) and their running sum (global bound) for "
@@ -533,6 +533,13 @@ def mid_range(case, ctx):
     ctx.lib(asig.reset_values, a[::-1].copy())
     _check_object(ctx, "after reset_values(record of %d samples) on an object with rectangle-rule series of %d:" % (n, n2), asig, a[::-1], dt, True,
                   _order_first(1 if seed % 2 else 4, seed // 23))
+    try:  # the library's own correction edits the record in place and hands it back through reset_values
+        asig.set_zero_residual_velocity()
+        cur = np.array(asig.values, dtype=float)
+    except Exception:  # noqa  (which records a correction accepts is not C08's business)
+        cur = None
+    if cur is not None and np.all(np.isfinite(cur)):
+        _check_object(ctx, "after set_zero_residual_velocity (n=%d):" % n, asig, cur, dt, True, _read_order(seed // 31))
     # 5. linearity at this length (one rule) and the closed forms
     al = (-1.0) ** (seed % 2) * 10.0 ** (4 * _hu(seed, "al") - 2)
     be = (-1.0) ** (seed // 2 % 2) * 10.0 ** (4 * _hu(seed, "be") - 2)
